@@ -180,7 +180,7 @@ void rand_case(vh::Case& c, std::size_t dlo, std::size_t dhi, int span) {
   if (r.chance(1, 2)) shuffle_inside_parts(r, rep);
   PR s = make_pr(rep);
   c.log("rand d=" + vh::str(d) + " simplex=" + show(s) + " = " + fk::show(model));
-  CofaceOpts o; o.cap = c.thorough ? 9000 : 2200; o.converse_sample = c.thorough ? 64 : 24;
+  CofaceOpts o; o.cap = c.thorough ? 6000 : 1300; o.converse_sample = c.thorough ? 64 : 24; o.face_sample = c.thorough ? 32 : 12;
   full_checks(c, s, d, model, o, 40);
   if (c.failed) return;
   c.count("shape.dim" + vh::str(model.size() - 1) + ".d" + vh::str(d));
